@@ -10,22 +10,35 @@ Proof. vm_compute. reflexivity. Qed.
 Lemma globals_vars_covered : forallb (var_covered var_prots allow_list) gen_global_vars = true.
 Proof. vm_compute. reflexivity. Qed.
 
-(* the strict obligation (no known findings) fails on the current tree, exactly at IsNamespaceScoped *)
+(* the strict obligation (no known findings) still fails on the current tree: a reachable store clears the init
+   flag (SetSchema, explicit built-in version), while reachable reads of the maps are justified ONLY by "after
+   initSchema() returned" (no lock held) — the once-reading of initSchema that justifies them does not hold *)
 Lemma globals_strict_refuted :
-  exists r, In r gen_accesses /\ a_reach r = true /\ row_disciplined var_prots r = false /\
-            a_fn r = "IsNamespaceScoped" /\ a_ctx r = [].
+  (exists r, In r gen_accesses /\ a_reach r = true /\ is_reset_site r = true /\
+             a_fn r = "SetSchema" /\ a_var r = "kyaml/openapi.globalSchema.schemaInit" /\ a_val r = "false" /\ a_ord r = 1%N) /\
+  (exists r, In r gen_accesses /\ a_reach r = true /\ a_fn r = "SchemaForResourceType" /\
+             a_kind r = AMapRead /\ a_ctx r = ["A:kyaml/openapi.initSchema"]).
 Proof.
-  exists (mkAcc "kyaml/openapi" "IsNamespaceScoped" "kyaml/openapi.globalSchema.namespaceabilityByResourceType[]"
-                AMapRead 0%N [] true "").
-  repeat split; try reflexivity. vm_compute. tauto.
+  split.
+  - exists (mkAcc "kyaml/openapi" "SetSchema" "kyaml/openapi.globalSchema.schemaInit" AWrite 1%N
+                  ["W:kyaml/openapi.schemaLock"] true "false").
+    repeat split; try reflexivity. vm_compute. tauto.
+  - exists (mkAcc "kyaml/openapi" "SchemaForResourceType" "kyaml/openapi.globalSchema.schemaByResourceType[]" AMapRead 0%N
+                  ["A:kyaml/openapi.initSchema"] true "").
+    repeat split; try reflexivity. vm_compute. tauto.
 Qed.
 
-Lemma globals_findings_are_f9 :
-  map (fun r => (a_fn r, a_var r)) (finding_rows var_prots allow_list gen_accesses)
-  = [("IsNamespaceScoped", "kyaml/openapi.globalSchema.namespaceabilityByResourceType");
-     ("IsNamespaceScoped", "kyaml/openapi.globalSchema.namespaceabilityByResourceType[]");
-     ("SetSchema", "kyaml/openapi.globalSchema.schemaInit")].
+(* the only row excused as a known finding: the store that clears schemaInit when a build names a built-in version *)
+Lemma globals_findings_are_reinit :
+  map (fun r => (a_fn r, a_var r, a_ord r)) (finding_rows var_prots allow_list gen_accesses)
+  = [("SetSchema", "kyaml/openapi.globalSchema.schemaInit", 1%N)].
 Proof. vm_compute. reflexivity. Qed.
+
+(* the repaired read: both rows of IsNamespaceScoped are under the read lock and judged disciplined *)
+Lemma globals_is_ns_scoped_locked :
+  forallb (fun r => negb (String.eqb (a_fn r) "IsNamespaceScoped") || row_disciplined var_prots r) gen_accesses = true /\
+  existsb (fun r => String.eqb (a_fn r) "IsNamespaceScoped") gen_accesses = true.
+Proof. split; vm_compute; reflexivity. Qed.
 
 (* the row judgement is the judgement of the soundness theorem: a disciplined write row carries a context in
    which Conc.write_ok_s holds, and so on *)
